@@ -77,7 +77,8 @@ CLAIMS["C19"] = dict(
     text="Proof over an abstract, immutable file system (uninterpreted exists/isdir/isfile): a file is eligible iff it is a plain file whose "
          "name ends with one of the extensions; a path argument errs iff it does not exist or is an ineligible file, and exactly then one error "
          "is reported and nothing is added; everything added to the set is eligible and nothing is ever removed; only arguments containing * or ? "
-         "are glob-expanded; the result is strictly increasing (each file once, sorted); the error flag implies a reported error; list mode prints "
+         "are glob-expanded; the result is strictly increasing (sorted) and no two entries denote the same absolute path (each file once however "
+         "it is spelled; D23 fixed); the error flag implies a reported error; list mode prints "
          "iff the list is non-empty; in main: a discovery error means process_files_to_scan is never reached, and list mode ends with "
          "NO_FILES_TO_SCAN iff nothing is selected or an argument erred (independent of argument order).",
     note=TB + "Known finding D4: arguments that select no file end with SUCCESS. NOT covered: completeness of the directory walk (every eligible "
